@@ -29,6 +29,9 @@ def in_projection(m):
         skip = 3
         types = set(ksuites.tpl_types(m["opline"], skip))
         return bool(types & PROT) and m["implrv"] == 0 and m["modelrv"] not in (0, None)
+    if m["op"] == "wrap":
+        # the library wraps what the model refuses to wrap (or answers another refusal class)
+        return m["cat"] in ("rvclass", "rvcode")
     return False
 
 
@@ -37,6 +40,9 @@ def run_k(ctx, kres):
     from ..main import Trace
     v = k_suite(ctx, kres, "K02-flag-matrix(exhaustive)", [Trace("matrix", gen.flag_matrix(gen.load_tables(), ctx.seed))], in_projection, direct=ksuites.protection_direct)
     v += k_suite(ctx, kres, "K02-objects", ksuites.object_traces(ctx, salt=21), in_projection, direct=ksuites.protection_direct)
+    # who may be wrapped under whom: secret / RSA private / EC private keys x EXTRACTABLE x WRAP_WITH_TRUSTED x SENSITIVE x (un)trusted AES and RSA wrapping keys x mechanisms
+    from .. import gen2
+    v += k_suite(ctx, kres, "K02-wrap-matrix(exhaustive)", [Trace("wrap-matrix", gen2.c02_wrap_matrix(ctx.seed))], in_projection, direct=ksuites.protection_direct)
     return v
 
 
